@@ -25,29 +25,29 @@ def State.addM (s : State) (l i v : Nat) : State := { s with mult := s.mult.inse
 def State.addL (s : State) (l i v : Nat) : State := { s with loc := s.loc.insert (l, i) (s.l l i + v) }
 def State.addR (s : State) (p v : Nat) : State := { s with rhs := s.rhs.insert p (s.r p + v) }
 
-def sumW (ps : List Nat) : Nat := (ps.map weight).sum
+def sumW (w : Nat → Nat) (ps : List Nat) : Nat := (ps.map w).sum
 
 /-- effect of one kernel call (free kernel).  `L` = leaf level, `partsOf` = particles of a leaf;
     `partsOfSrc` = particles of a source leaf (same tree unless target/source mode). -/
-def applyCall (L : Nat) (partsOf partsOfSrc : Nat → List Nat) (s : State) : Call → State
-  | .p2m leaf parts => s.addM L leaf (sumW parts)
+def applyCall (w : Nat → Nat) (L : Nat) (partsOf partsOfSrc : Nat → List Nat) (s : State) : Call → State
+  | .p2m leaf parts => s.addM L leaf (sumW w parts)
   | .m2m level p children => s.addM level p ((children.map fun c => s.m (level+1) c.1).sum)
   | .m2l level t srcs => s.addL level t ((srcs.map fun c => s.m level c.1).sum)
   | .l2l level p children => children.foldl (fun s c => s.addL (level+1) c.1 (s.l level p)) s
   | .l2p leaf parts => parts.foldl (fun s p => s.addR p (s.l L leaf)) s
   | .p2p src tgt _ =>
-      let ws := sumW (partsOf src); let wt := sumW (partsOf tgt)
+      let ws := sumW w (partsOf src); let wt := sumW w (partsOf tgt)
       let s := (partsOf tgt).foldl (fun s p => s.addR p ws) s
       (partsOf src).foldl (fun s p => s.addR p wt) s
   | .p2pTsm src tgt _ =>
-      let ws := sumW (partsOfSrc src)
+      let ws := sumW w (partsOfSrc src)
       (partsOf tgt).foldl (fun s p => s.addR p ws) s
   | .p2pInner leaf =>
       let ps := partsOf leaf
-      ps.foldl (fun s p => s.addR p (sumW ps - weight p)) s
+      ps.foldl (fun s p => s.addR p (sumW w ps - w p)) s
 
-def applyCalls (L : Nat) (partsOf partsOfSrc : Nat → List Nat) (s : State) (cs : List Call) : State :=
-  cs.foldl (applyCall L partsOf partsOfSrc) s
+def applyCalls (w : Nat → Nat) (L : Nat) (partsOf partsOfSrc : Nat → List Nat) (s : State) (cs : List Call) : State :=
+  cs.foldl (applyCall w L partsOf partsOfSrc) s
 
 def Tree.partsOf (t : Tree) : Nat → List Nat :=
   let m : Std.HashMap Nat (List Nat) := t.pgroups.foldl (fun m g => g.foldl (fun m l => m.insert l.idx l.parts) m) {}
